@@ -301,6 +301,8 @@ pub enum UFn {
     PointAbsY,
     FBoxAbs,
     OrAnon,
+    /// float: 1/x (NOT idempotent, 0.0 -> inf)
+    Recip,
     // predicates
     IsEven,
     CIsEven,
@@ -326,7 +328,7 @@ pub enum UFn {
 
 impl UFn {
     pub fn idempotent(self) -> bool {
-        !matches!(self, UFn::WrapAdd1 | UFn::Dup)
+        !matches!(self, UFn::WrapAdd1 | UFn::Dup | UFn::Recip)
     }
     /// partial predicates panic outside their domain; the grammar only places them after a validator
     /// that rejects every value outside the domain
@@ -451,6 +453,8 @@ impl Bound {
 pub enum Re {
     Digits,
     Lower,
+    /// unanchored `[0-9]+`
+    HasDigit,
 }
 #[derive(Clone, Copy, Debug, PartialEq, Eq, Hash, PartialOrd, Ord)]
 pub enum ReSpell {
